@@ -7,7 +7,7 @@ CPU: 8-lane groups in every lane position; Trace_Lane validates every lane."""
 import json
 import vlib, lanelib
 from vlib import Check, workdir
-APA = ['InvToCanon512', 'InvAdd512', 'InvAddBC512', 'InvSub512', 'InvSubBC512', 'InvReduce128_512', 'InvReduce96_512', 'InvMult128P_512', 'InvMult72P_512', 'InvSquare128P_512', 'InvMult8_512_3', 'InvMult8_512_255']
+APA = ['InvToCanon512', 'InvAdd512', 'InvAddBC512', 'InvSub512', 'InvSubBC512', 'InvReduce128_512', 'InvReduce96_512', 'InvMult128P_512', 'InvMult72P_512', 'InvSquare128P_512', 'InvMult8_512_3']
 
 
 def run(tier, seed, replay=None):
@@ -18,7 +18,7 @@ def run(tier, seed, replay=None):
     if replay:
         cases = [lanelib.case_from_json(c) for c in json.load(open(replay))['case']['cases']]
     else:
-        leads = lanelib.model_lane(ck, wd, tier, APA + (['InvMult512_3'] if tier == 'thorough' else []))
+        leads = lanelib.model_lane(ck, wd, tier, APA + (['InvMult8_512_255', 'InvMult512_3'] if tier == 'thorough' else []))
         cases = lanelib.lead_cases(lanelib.LANE512, leads) + lanelib.lane_cases(lanelib.LANE512, seed, tier)
     if vlib.have_avx512():
         lanelib.replay(ck, wd, 'avx512', cases, 'AVX512 lane kernels (%d register groups, 13 kernels)' % len(cases),
